@@ -44,7 +44,95 @@ func migDims() []Dim {
 		{"b.lint", 4},
 		{"b.breaking", 3},
 		{"b.deps", 3}, // 1 the same remote dependency with its own buf.lock (duplicate pins to merge); 2 declares workspace module A by name
+		// round 4: HOW the migrator is invoked = the sequence of workspace / module directories it is asked to add
+		// (see migCallArgs): 0 bufmigrate.MigrateAll (discovery: plain `buf config migrate`); 1 the workspace alone;
+		// 2 the workspace and every one of its directories; 3 the workspace and its last directory; 4 the workspace and
+		// its directories in reverse order, then once more in order; 5 the workspace twice and its first directory,
+		// unnormalised spellings. Without a buf.work.yaml the module directories alone (2 in order, 3 reversed,
+		// 4 reversed then in order, 5 unnormalised spellings).
+		{"call", 6},
+		// where the v1 workspace lives in the tree the migrator is run on: 0 at its root; 1 below directory "w"
+		// (the migrated buf.yaml is then written into w when the workspace alone is named, and at the root
+		// with module paths w/... for every other invocation: Migrator.Migrate, last bullet);
+		// 2 below "w" and the workspace alone is named (= call 1, so that quick pairs every other dimension
+		// with a destination directory that is not the root of the tree; needs a buf.work.yaml and call 0)
+		{"at", 3},
 	}
+}
+
+const atPrefix = "w"
+
+// underPrefix moves an argument of the migrator below directory prefix, keeping its spelling.
+func underPrefix(prefix, p string) string {
+	switch {
+	case prefix == "":
+		return p
+	case p == ".":
+		return prefix
+	case p == "./":
+		return "./" + prefix + "/"
+	case strings.HasPrefix(p, "./"):
+		return "./" + prefix + "/" + p[2:]
+	}
+	return prefix + "/" + p
+}
+
+// migCall is an explicit invocation of Migrator.Migrate (`buf config migrate --workspace .. --module ..`).
+type migCall struct {
+	Workspaces []string `json:"workspaces"`
+	Modules    []string `json:"modules"`
+}
+
+// migCallArgs renders value call (1..5) of the invocation dimension for a workspace whose buf.work.yaml at
+// the root lists dirs (hasWork), or whose module directories dirs are migrated together without one.
+// The forms with a buf.work.yaml are all documented as equivalent (bufmigrate.Migrator.Migrate: "if workspace
+// foo has directories bar and baz, then specifying foo, foo + bar and foo + bar + baz are the same"); without
+// one "the buf.yaml will contain exactly these directories". ok is false where the form does not exist or
+// repeats another value.
+func migCallArgs(call int, hasWork bool, dirs []string) (*migCall, bool) {
+	rev := make([]string, 0, len(dirs))
+	for i := len(dirs) - 1; i >= 0; i-- {
+		rev = append(rev, dirs[i])
+	}
+	odd := func(d string) string {
+		if d == "." {
+			return "./"
+		}
+		return "./" + d + "/"
+	}
+	if hasWork {
+		switch call {
+		case 1:
+			return &migCall{Workspaces: []string{"."}}, true
+		case 2:
+			return &migCall{Workspaces: []string{"."}, Modules: append([]string{}, dirs...)}, true
+		case 3:
+			return &migCall{Workspaces: []string{"."}, Modules: []string{dirs[len(dirs)-1]}}, true
+		case 4:
+			return &migCall{Workspaces: []string{"."}, Modules: append(rev, dirs...)}, true
+		case 5:
+			return &migCall{Workspaces: []string{".", "./"}, Modules: []string{odd(dirs[0])}}, true
+		}
+		return nil, false
+	}
+	switch call {
+	case 2:
+		return &migCall{Modules: append([]string{}, dirs...)}, true
+	case 3:
+		if len(dirs) < 2 {
+			return nil, false
+		}
+		return &migCall{Modules: rev}, true
+	case 4:
+		return &migCall{Modules: append(rev, dirs...)}, true
+	case 5:
+		var mods []string
+		for _, d := range dirs {
+			mods = append(mods, odd(d))
+		}
+		return &migCall{Modules: mods}, true
+	}
+	return nil, false
 }
 
 // MigCase is one generated workspace (old state) together with its edited copy (new state).
@@ -73,6 +161,12 @@ type MigCase struct {
 	// name the commit every ref resolves to ("" = head of the default label). nil for the workspace grammar.
 	CommitTimes map[string]time.Time         `json:"-"`
 	RefCommits  map[string]map[string]string `json:"-"`
+	// Call: the explicit invocation of the migrator (nil = bufmigrate.MigrateAll), round 4.
+	Call *migCall `json:"call,omitempty"`
+	// Prefix: the migrator is run on a tree that holds the whole workspace below this directory ("" = at the root).
+	Prefix string `json:"workspace_below,omitempty"`
+	// NoBufYAML: original module directories that have no buf.yaml (built with the v1 defaults).
+	NoBufYAML []string `json:"dirs_without_buf_yaml,omitempty"`
 }
 
 // declDep is one entry of a `deps:` list of a v1/v1beta1 buf.yaml.
@@ -556,6 +650,24 @@ func buildMigCase(dims []Dim, ix dimIndex, v []int, deps *migDeps) (MigCase, boo
 		}
 		both(".", "buf.work.yaml", EmitYAML(m{"version": "v1", "directories": strs(dirs)}))
 	}
+	if layout == 4 {
+		c.NoBufYAML = []string{bDir}
+	}
+	if ix.val(v, "at") >= 1 {
+		c.Prefix = atPrefix
+	}
+	if ix.val(v, "at") == 2 {
+		if layout == 1 || ix.val(v, "call") != 0 {
+			return c, false
+		}
+		c.Call, _ = migCallArgs(1, true, c.ModuleDirs)
+	}
+	if call := ix.val(v, "call"); call != 0 {
+		var ok bool
+		if c.Call, ok = migCallArgs(call, layout != 1, c.ModuleDirs); !ok {
+			return c, false
+		}
+	}
 	keys := make([]string, 0, len(c.Vector))
 	for k, val := range c.Vector {
 		keys = append(keys, fmt.Sprintf("%s=%d", k, val))
@@ -799,10 +911,23 @@ func runMigration(r *evid.Run) {
 	// names, deps or module B's sections.
 	//   quick:    singles + all pairs of interacting dimensions
 	//   thorough: singles + ALL pairs + all triples of pairwise interacting dimensions
-	structural := map[string]bool{"layout": true, "import": true, "a.kind": true, "a.excludes": true}
+	structural := map[string]bool{"layout": true, "import": true, "a.kind": true, "a.excludes": true, "at": true}
 	isSection := func(n string) bool { return n == "a.lint" || n == "a.breaking" }
+	// The invocation form decides which directories are visited how often and in which order; what a
+	// visit reads is the directory's layout, version / roots, name, deps and lock - not the content of a
+	// check section (converted inside the visit by an independent call).
+	isAnySection := func(n string) bool { return isSection(n) || n == "b.lint" || n == "b.breaking" }
 	interacts := func(a, b string) bool {
 		if isSection(a) && !structural[b] || isSection(b) && !structural[a] {
+			return false
+		}
+		if a == "call" && isAnySection(b) || b == "call" && isAnySection(a) {
+			return false
+		}
+		// Where the workspace lives changes the destination directory every path of the migrated buf.yaml is
+		// relative to: module paths, excludes, the ignore paths of the check sections, the place of the buf.lock.
+		atPartner := map[string]bool{"layout": true, "a.kind": true, "call": true, "a.excludes": true, "b.excludes": true, "a.deps": true, "b.deps": true, "a.lint": true, "a.breaking": true}
+		if a == "at" && !atPartner[b] || b == "at" && !atPartner[a] {
 			return false
 		}
 		return true
@@ -850,7 +975,11 @@ func runMigration(r *evid.Run) {
 	r.Set("migration_skipped_reasons_top", skips.top(8))
 	for _, clause := range []string{"migrated", "v1_module", "v1beta1_module", "v1beta1_multiple_roots", "excludes", "two_modules", "inter_module_import",
 		"module_without_buf_yaml", "remote_dep_with_lock", "lock_upgraded_to_b5", "lint_nonempty_before", "breaking_nonempty_before",
-		"lint_disabled_before", "breaking_disabled_before", "per_module_configs_differ", "lint_compared", "breaking_compared", "descriptors_compared"} {
+		"lint_disabled_before", "breaking_disabled_before", "per_module_configs_differ", "lint_compared", "breaking_compared", "descriptors_compared",
+		"module_list_checked", "call/discovery_MigrateAll", "call/explicit", "call/workspace_alone", "call/module_directories_alone", "call/workspace_named_twice",
+		"call/unnormalised_spelling", "call/directory_reached_twice", "call/directory_reached_three_times", "call/directory_without_buf_yaml_reached_twice",
+		"call/named_module_reached_twice", "call/module_with_buf_lock_reached_twice",
+		"at/workspace_below_a_directory", "at/migrated_buf_yaml_at_the_tree_root", "at/migrated_buf_yaml_inside_the_directory", "at/with_check_section_paths"} {
 		if snap[clause] == 0 {
 			r.Incomplete("migration clause never exercised: " + clause)
 		}
@@ -910,7 +1039,16 @@ func migrateOne(r sink, c MigCase, deps *migDeps, cov, skips *counter, full bool
 		}
 	}
 	// ---- migrate
+	// rootedAfter: the workspace lives below c.Prefix and the migrated buf.yaml is at the root of the tree
+	rootedAfter := false
 	migrate := func(files map[string]string) (map[string]string, bool) {
+		if c.Prefix != "" {
+			moved := make(map[string]string, len(files))
+			for p, text := range files {
+				moved[c.Prefix+"/"+p] = text
+			}
+			files = moved
+		}
 		bucket, err := memBucketRW(files)
 		if err != nil {
 			r.Incomplete("migration harness: " + err.Error())
@@ -924,6 +1062,16 @@ func migrateOne(r sink, c MigCase, deps *migDeps, cov, skips *counter, full bool
 					err = panicError{fmt.Sprint(p)}
 				}
 			}()
+			if c.Call != nil {
+				var ws, mods []string
+				for _, p := range c.Call.Workspaces {
+					ws = append(ws, underPrefix(c.Prefix, p))
+				}
+				for _, p := range c.Call.Modules {
+					mods = append(mods, underPrefix(c.Prefix, p))
+				}
+				return migrator.Migrate(ctx, bucket, ws, mods, nil)
+			}
 			return bufmigrate.MigrateAll(ctx, migrator, bucket, nil)
 		}()
 		if pe, ok := err.(panicError); ok {
@@ -940,6 +1088,26 @@ func migrateOne(r sink, c MigCase, deps *migDeps, cov, skips *counter, full bool
 		if err != nil {
 			r.Incomplete("migration harness: " + err.Error())
 			return nil, false
+		}
+		if c.Prefix != "" {
+			// The v2 workspace is where the migrated buf.yaml is: inside the directory (then it is observed
+			// from there, like the original), or at the root of the tree with module paths below the directory.
+			_, inside := after[c.Prefix+"/buf.yaml"]
+			_, atRoot := after["buf.yaml"]
+			if inside && !atRoot {
+				moved := make(map[string]string, len(after))
+				for p, text := range after {
+					if !strings.HasPrefix(p, c.Prefix+"/") {
+						r.Violate("migrate/files-outside-the-workspace", "the migration of a workspace below "+c.Prefix+" wrote "+p, m{"kind": c.kind(), "case": c})
+						return nil, false
+					}
+					moved[strings.TrimPrefix(p, c.Prefix+"/")] = text
+				}
+				after = moved
+				rootedAfter = false
+			} else {
+				rootedAfter = true
+			}
 		}
 		return after, true
 	}
@@ -964,6 +1132,9 @@ func migrateOne(r sink, c MigCase, deps *migDeps, cov, skips *counter, full bool
 		afterFiles[1] = map[string]string{}
 		for p, text := range c.New {
 			if strings.HasSuffix(p, ".proto") {
+				if rootedAfter {
+					p = c.Prefix + "/" + p
+				}
 				afterFiles[1][p] = text
 			}
 		}
@@ -978,6 +1149,34 @@ func migrateOne(r sink, c MigCase, deps *migDeps, cov, skips *counter, full bool
 			r.Violate("migrate/leftover/"+base, "a v1 configuration file is still present after migration: "+p, m{"kind": c.kind(), "case": c, "migrated": migrated})
 		}
 	}
+	// every module directory is listed once: the migrator never writes includes, so two entries with one
+	// path are two modules that build the same files (buf refuses to load such a workspace at all); named
+	// here so that the defect is not reported as whatever error the loader happens to answer
+	if text, ok := afterFiles[0]["buf.yaml"]; ok {
+		if file, err := readBufYAML(text); err == nil {
+			count := map[string]int{}
+			for _, mc := range file.ModuleConfigs() {
+				dir := mc.DirPath()
+				if rootedAfter {
+					dir = strings.TrimPrefix(dir, c.Prefix+"/")
+				}
+				count[dir]++
+			}
+			cov.add("module_list_checked", 1)
+			for _, dir := range sortedCountKeys(count) {
+				if count[dir] > 1 {
+					role := "module"
+					for _, d := range c.NoBufYAML {
+						if d == dir {
+							role = "module-without-buf.yaml"
+						}
+					}
+					r.Violate("migrate/modules/directory-listed-twice/"+role, fmt.Sprintf("the migrated buf.yaml lists module directory %s %d times (migrator invoked with %s)", dir, count[dir], c.callString()), m{"kind": c.kind(), "case": c, "migrated": migrated})
+					return
+				}
+			}
+		}
+	}
 	// the dependency oracle reads the migrated files only; it runs before the migrated workspace is built so
 	// that a wrong ref / pin is named as such even when it also breaks the build
 	checkMigratedDeps(r, c, afterFiles[0], migrated, cov)
@@ -988,7 +1187,21 @@ func migrateOne(r sink, c MigCase, deps *migDeps, cov, skips *counter, full bool
 			r.Violate("migrate/workspace-after/"+errClass(err.Error()), "the migrated workspace does not build: "+err.Error(), m{"kind": c.kind(), "case": c, "migrated": migrated})
 			return
 		}
-		grouped, orphans := groupByOriginal(views, c.ModuleDirs)
+		afterDirs := c.ModuleDirs
+		if rootedAfter {
+			afterDirs = nil
+			for _, d := range c.ModuleDirs {
+				afterDirs = append(afterDirs, underPrefix(c.Prefix, d))
+			}
+		}
+		grouped, orphans := groupByOriginal(views, afterDirs)
+		if rootedAfter {
+			rekeyed := map[string][]*modView{}
+			for i, d := range afterDirs {
+				rekeyed[c.ModuleDirs[i]] = grouped[d]
+			}
+			grouped = rekeyed
+		}
 		if len(orphans) > 0 {
 			r.Violate("migrate/modules/unexpected-module", fmt.Sprintf("modules outside the original module directories after migration: %v", orphans), m{"kind": c.kind(), "case": c, "migrated": migrated})
 			return
@@ -1005,6 +1218,18 @@ func migrateOne(r sink, c MigCase, deps *migDeps, cov, skips *counter, full bool
 		countMigClauses(cov, c, afterFiles[0])
 	} else {
 		countDepWorldClauses(cov, c)
+	}
+	countCallClauses(cov, c)
+	if c.Prefix != "" {
+		cov.add("at/workspace_below_a_directory", 1)
+		if rootedAfter {
+			cov.add("at/migrated_buf_yaml_at_the_tree_root", 1)
+		} else {
+			cov.add("at/migrated_buf_yaml_inside_the_directory", 1)
+		}
+		if c.Vector["a.lint"] != 0 || c.Vector["a.breaking"] != 0 {
+			cov.add("at/with_check_section_paths", 1)
+		}
 	}
 
 	for di, dir := range c.ModuleDirs {
@@ -1233,6 +1458,86 @@ func panicClass(s string) string {
 		out = out[:80]
 	}
 	return out
+}
+
+func sortedCountKeys(count map[string]int) []string {
+	keys := make([]string, 0, len(count))
+	for k := range count {
+		keys = append(keys, k)
+	}
+	sort.Strings(keys)
+	return keys
+}
+
+func (c MigCase) callString() string {
+	if c.Call == nil {
+		return "MigrateAll"
+	}
+	return fmt.Sprintf("workspaces %v modules %v", c.Call.Workspaces, c.Call.Modules)
+}
+
+// countCallClauses measures which add sequences of the invocation dimension a migrated case exercised.
+func countCallClauses(cov *counter, c MigCase) {
+	if c.Call == nil {
+		cov.add("call/discovery_MigrateAll", 1)
+		return
+	}
+	cov.add("call/explicit", 1)
+	hasWork := len(c.Call.Workspaces) > 0
+	if hasWork && len(c.Call.Modules) == 0 {
+		cov.add("call/workspace_alone", 1)
+	}
+	if !hasWork {
+		cov.add("call/module_directories_alone", 1)
+		if len(c.Call.Modules) > 1 && c.Call.Modules[0] != c.ModuleDirs[0] {
+			cov.add("call/module_directories_alone_reordered", 1)
+		}
+	}
+	if len(c.Call.Workspaces) > 1 {
+		cov.add("call/workspace_named_twice", 1)
+	}
+	seen := map[string]int{}
+	odd := false
+	for _, d := range c.Call.Modules {
+		if strings.HasPrefix(d, "./") {
+			odd = true
+			d = strings.TrimSuffix(strings.TrimPrefix(d, "./"), "/")
+			if d == "" {
+				d = "."
+			}
+		}
+		seen[d]++
+	}
+	if odd {
+		cov.add("call/unnormalised_spelling", 1)
+	}
+	for _, d := range sortedCountKeys(seen) {
+		reached := seen[d]
+		if hasWork {
+			reached++ // every generated module directory is listed by the buf.work.yaml
+		}
+		if reached < 2 {
+			continue
+		}
+		cov.add("call/directory_reached_twice", 1)
+		if reached > 2 {
+			cov.add("call/directory_reached_three_times", 1)
+		}
+		for _, nb := range c.NoBufYAML {
+			if nb == d {
+				cov.add("call/directory_without_buf_yaml_reached_twice", 1)
+			}
+		}
+		if c.Names[d] != "" {
+			cov.add("call/named_module_reached_twice", 1)
+		}
+		for _, p := range c.Pins {
+			if p.Dir == d {
+				cov.add("call/module_with_buf_lock_reached_twice", 1)
+				break
+			}
+		}
+	}
 }
 
 func configFiles(files map[string]string) map[string]string {
